@@ -1,7 +1,124 @@
-import ScVerif.Base.Line
-/-! Driver handler for C08 (stub: replaced by the property's owner). -/
-namespace ScVerif.C08
+import ScVerif.C09.Codec
+import ScVerif.C08.Include
+/-! Driver handler for C08.
 
-def handle (_toks : List String) : String := "!bad-op"
+Predicates are the closed family shared with the Go harness: `nil` (no include option) or a truth
+table `T:<id.id…>:<val.val…>:<mask>` over (id, value ∈ {absent} ∪ vals): bit `idIdx*(nvals+1)+valIdx`
+of `mask` (valIdx 0 = absent) is the answer; unknown ids/values answer false; the reserved fence id
+`~` answers `present`.
+
+* `include <pred> <change>`            → `includeChange` (`drop` when `ok == false`)
+* `pull <pred> <nBefore> <op>*`        run the first `nBefore` writes on an empty collection, subscribe
+                                       (`Pull(WithInclude pred, WithBackpressure(true))`), run the rest →
+                                       `seed=<events>` then per later write ` <event|drop|fail>@<List(WithInclude)>`
+* `burst <pred> <nBefore> <op>*`       lossy pull: the writes after `nBefore` reach `mergeCollectionExcess`
+                                       under every recv/emit pattern (then drain) → the set of streams the
+                                       subscriber can be sent, `|`-separated, sorted
+ops: `add:i:v` `upd:i:v` `ups:i:v` `del:i`; times are dropped from `pull`/`burst` answers (`0`).
+-/
+namespace ScVerif.C08
+open ScVerif.Line ScVerif.C09
+
+def indexOf? (x : String) : List String → Option Nat
+  | [] => none
+  | y :: ys => if x = y then some 0 else (indexOf? x ys).map (· + 1)
+
+def tablePred (ids vals : List String) (mask : Nat) : Pred String String := fun i v =>
+  if i = "~" then v.isSome
+  else match indexOf? i ids with
+    | none => false
+    | some ii =>
+      match v with
+      | none => mask.testBit (ii * (vals.length + 1))
+      | some x =>
+        match indexOf? x vals with
+        | none => false
+        | some vi => mask.testBit (ii * (vals.length + 1) + vi + 1)
+
+def parsePred? (s : String) : Option (Option (Pred String String)) :=
+  if s = "nil" then some none
+  else match s.splitOn ":" with
+    | ["T", ids, vals, mask] => do
+      let m ← parseNat? mask
+      pure (some (tablePred (ids.splitOn ".") (vals.splitOn ".") m))
+    | _ => none
+
+def parseOp? (s : String) : Option (Op String String) :=
+  match s.splitOn ":" with
+  | ["add", i, v] => if i = "" ∨ v = "" then none else some (.add i v)
+  | ["upd", i, v] => if i = "" ∨ v = "" then none else some (.update i v)
+  | ["ups", i, v] => if i = "" ∨ v = "" then none else some (.upsert i v)
+  | ["del", i] => if i = "" then none else some (.delete i)
+  | _ => none
+
+/-- insertion sort by id: `sort.Slice(currentValues, id <)` (ids are distinct) -/
+def insertById (x : String × String) : List (String × String) → List (String × String)
+  | [] => [x]
+  | y :: ys => if x.1 < y.1 then x :: y :: ys else y :: insertById x ys
+
+def sortById (l : List (String × String)) : List (String × String) := l.foldr insertById []
+
+def showItems (l : List (String × String)) : String :=
+  if l.isEmpty then "-" else ",".intercalate (l.map (fun iv => iv.1 ++ "=" ++ iv.2))
+
+/-- `List(WithInclude p)` with ids attached (the harness re-attaches them through the values). -/
+def listOf (p : Option (Pred String String)) (items : List (String × String)) : String :=
+  showItems (sortById (itemSlice p items))
+
+def zeroTime (c : SChange) : SChange := { c with time := 0 }
+
+def pullAfter (p : Option (Pred String String)) (items : List (String × String)) :
+    List (Op String String) → List String
+  | [] => []
+  | op :: ops =>
+    let r := stepOp 0 items op
+    let ev := match r.2 with
+      | none => "fail"
+      | some c => showOptChange ((includeChange p c).map zeroTime)
+    (ev ++ "@" ++ listOf p r.1) :: pullAfter p r.1 ops
+
+/-- Every stream `mergeCollectionExcess` can emit for the inputs `ins`, over all recv/emit patterns,
+draining at the end. -/
+def allEmits : (fuel : Nat) → MState String String → List SChange → List (List SChange)
+  | 0, _, _ => []
+  | fuel + 1, st, ins =>
+    let viaEmit := match emit st with
+      | some (o, st') => (allEmits fuel st' ins).map (o :: ·)
+      | none => []
+    match ins with
+    | [] => if st.pending.isEmpty then [[]] else viaEmit
+    | e :: rest => allEmits fuel (recv st e) rest ++ viaEmit
+
+def handle? (toks : List String) : Option String :=
+  match toks with
+  | ["include", p, c] => do
+    let p ← parsePred? p
+    let c ← parseChange? c
+    pure (showOptChange (includeChange p c))
+  | "pull" :: p :: n :: ops => do
+    let p ← parsePred? p
+    let n ← parseNat? n
+    let ops ← ops.mapM parseOp?
+    if n > ops.length then none
+    let before := runOps 0 [] (ops.take n)
+    let seedEvs := seedFrom 0 (sortById (itemSlice p before.1))
+    pure (" ".intercalate (("seed=" ++ showChanges seedEvs) :: pullAfter p before.1 (ops.drop n)))
+  | "burst" :: p :: n :: ops => do
+    let p ← parsePred? p
+    let n ← parseNat? n
+    let ops ← ops.mapM parseOp?
+    if n > ops.length then none
+    let before := runOps 0 [] (ops.take n)
+    let after := runOps 0 before.1 (ops.drop n)
+    let ins := after.2.map zeroTime
+    let streams := (allEmits (2 * ins.length + 2) MState.init ins).map
+      (fun em => showChanges (em.filterMap (includeChange p)))
+    pure ("|".intercalate streams.eraseDups)
+  | _ => none
+
+def handle (toks : List String) : String :=
+  match handle? toks with
+  | some r => r
+  | none => "!bad-op"
 
 end ScVerif.C08
